@@ -13,11 +13,13 @@ class C18(framework.PropertyCheck):
             "two-digit indices), 1-12 rows, 0-9 fractional digits (incl. a trailing dot), cells over {0,1,x, multi-bit binary strings up to 70 bits}, "
             'optional trailing newline; every (column,row) pair is read; thorough adds the exhaustive tiny space (<=2 columns, <=2 rows, every time '
             'position, 0-3 fraction digits); non-trivial = time column not first, a bracketed/spaced name, or a fractional time')
-    assumptions = ["row delimiter is '\\n' and the cell delimiter ','; file I/O is exercised on the implementation side only"]
+    assumptions = ["row delimiter is a line end as the text layer reports it ('\\n'; a sixth of the files are written with CR LF and the model is given the text as open().read() returns it) and the cell delimiter ','; file I/O is exercised on the implementation side only"]
 
     def cases(self, rng, tier, n):
         for k in range(n):
             c = {'cf': gen_trace.gen_csv(rng), 'nl': rng.random() < 0.5}
+            if k % 6 == 3:
+                c['crlf'] = True         # an export written on another platform: lines end in CR LF (the file is opened as text)
             if k % 5 == 4:
                 c['history'] = True      # another capture has been loaded before and unloaded again
             if k % 5 == 2:
@@ -47,6 +49,8 @@ class C18(framework.PropertyCheck):
         cf = case['cf']
         den = gen_trace.denote_csv(cf)
         text = gen_trace.render_csv(cf) + ('\n' if case['nl'] else '')
+        if case.get('crlf'):
+            text = text.replace('\n', '\r\n')
         steps = [('loadcsv', 't0', text), ('eval', 'eorg', '(list SIGNALS MAX-INDEX INDEX)')]
         if case.get('history'):
             steps = [('loadcsv', 'zz', 'Time [s],other\n0.5,1\n0.75,0\n1.5,1\n'), ('eval', 'eorg', '(list other MAX-INDEX TS)'), steps[0], ('unload', 'zz'), steps[1]]
